@@ -151,3 +151,63 @@ def make_argv(E, st, args):
     av = E.alloc(st, 8 * (len(ptrs) + 1), 'heap')
     for i, p in enumerate(ptrs + [0]): E.store(st, av + 8 * i, 8, p)
     return len(ptrs), av
+
+# ------------------------------------------------------------------ tinyformat::format<...>(fmt, args...) : precise model
+import re as _re
+def _pack_kinds(mangled):
+    m = _re.match(r'_ZN10tinyformat6formatIJ(.*?)EE(?:ENSt7__cxx1112basic_string|ES\d*_)', mangled)
+    body = m.group(1) if m else ''
+    kinds = []; i = 0
+    STR = 'NSt7__cxx1112basic_stringIcSt11char_traitsIcESaIcEEE'
+    while i < len(body):
+        if body.startswith(STR, i): kinds.append('str'); i += len(STR)
+        elif body.startswith('PKc', i): kinds.append('cstr'); i += 3
+        elif body.startswith('S', i) and _re.match(r'S\d*_', body[i:]): kinds.append('cstr'); i += len(_re.match(r'S\d*_', body[i:]).group(0))
+        elif body[i].isdigit():
+            n = int(_re.match(r'\d+', body[i:]).group(0)); i += len(str(n)) + n; kinds.append('i')
+        else: kinds.append(body[i]); i += 1
+    return kinds
+
+def install_tinyformat(E):
+    def handler(E, st, fr, I, A):
+        name = I['callee'].name[1:] if hasattr(I['callee'], 'name') else ''
+        name = _re.sub(r'\.tu\d+$', '', name)
+        kinds = _pack_kinds(name)
+        sret, fmtp = A[0], A[1]; argp = A[2:]
+        f = bytes(libc.cchars(E, st, fmtp)); out = []; i = 0; ai = 0
+        def argchars(k, p):
+            if k == 'str': return E.s_bytes(E, st, p)
+            if k == 'cstr': return libc.cchars(E, st, E.load(st, p, 8))
+            return None
+        def argint(k, p):
+            size = {'i': 4, 'j': 4, 'l': 8, 'm': 8, 'c': 1, 'h': 1, 'x': 8, 'y': 8, 's': 2, 't': 2, 'b': 1}.get(k, 4)
+            v = E.load(st, p, size)
+            if is_sym(v): return v, size
+            if k in ('i', 'l', 'x', 's'): v = sext(v, 8 * size)
+            return v, size
+        while i < len(f):
+            c = f[i]
+            if c != 37: out.append(c); i += 1; continue
+            j = i + 1
+            while j < len(f) and chr(f[j]) in '0123456789-+ #.': j += 1
+            spec = f[i + 1:j].decode()
+            while j < len(f) and chr(f[j]) in 'lhzjt': j += 1
+            conv = chr(f[j]); i = j + 1
+            if conv == '%': out.append(37); continue
+            k = kinds[ai]; p = argp[ai]; ai += 1
+            cs = argchars(k, p)
+            if cs is not None: out += cs; continue
+            v, size = argint(k, p)
+            if conv == 'c' or (k == 'c' and conv == 's'): out.append(v if is_sym(v) else v & 0xff); continue
+            if is_sym(v):
+                if conv == 'x' and spec == '02' and v.size() == 8:
+                    for nib in (z3.LShR(v, 4), v & 0xf): out.append(simp(z3.If(z3.ULT(nib, 10), nib + 0x30, nib + 0x57)))
+                else: out.append(z3.BitVec('fmtopaque_%d' % E.fresh(), 8))
+                continue
+            if conv in 'xX': out += list((('%' + spec + conv) % (v & ((1 << (8 * size)) - 1))).encode())
+            else: out += list((('%' + spec + 'd') % v).encode())
+        E.store(st, sret, 8, sret + 16); E.store(st, sret + 8, 8, 0); E.store(st, sret + 16, 1, 0)
+        E.s_set(E, st, sret, out)
+        return None
+    E.stubs.prefixes = [(p, h) for (p, h) in E.stubs.prefixes if p != '_ZN10tinyformat6formatI']
+    E.stubs.prefix('_ZN10tinyformat6formatI', handler)
